@@ -64,3 +64,10 @@ Print Assumptions C16_shift_reproduces_polynomials.
 Print Assumptions C16_zero_shift_is_identity.
 Print Assumptions C16_taps_are_textbook_lagrange.
 Print Assumptions C16_order3_textbook.
+Print Assumptions C16_order1_linear.
+Print Assumptions C16_taps_sum_to_one.
+Print Assumptions C16_integer_shift_holds_ends.
+Print Assumptions C16_paths_agree_interior.
+Print Assumptions C16_variable_shift_reproduces_polynomials.
+Print Assumptions C16_shift_beyond_start_holds_first_value.
+Print Assumptions C16_lagrange_reproduces.
